@@ -311,6 +311,19 @@ def make_counterfactual_graph(
     * Return :math:`(G', \gamma')`, where :math:`An(\gamma')` is the set of nodes in :math:`G'`
       ancestral to nodes corresponding to variables mentioned in :math:`\gamma'`.
     """
+    # An event variable that is intervened on itself is decided by the axiom of effectiveness:
+    # X_{..x..} = x always holds (drop it), X_{..x..} = x' never does (the event is inconsistent).
+    effective_event: Event = {}
+    violates_effectiveness = False
+    for variable, value in event.items():
+        if isinstance(variable, CounterfactualVariable):
+            own = [i for i in variable.interventions if i.name == variable.name]
+            if any(i.star != value.star for i in own):
+                violates_effectiveness = True
+            if own:
+                continue
+        effective_event[variable] = value
+    event = effective_event
     worlds = extract_interventions(event)
     pw_graph = make_parallel_worlds_graph(graph, worlds)
     new_event = dict(event)
@@ -319,6 +332,8 @@ def make_counterfactual_graph(
         directed=pw_graph.directed.edges(),
         undirected=pw_graph.undirected.edges(),
     )
+    if violates_effectiveness:
+        return cf_graph, None
     for node in graph.topological_sort():
         for world in worlds:
             node_at_interventions = node @ world
